@@ -1,5 +1,5 @@
 CONSTANTS
-  Kinds = {"dt_basic", "dt_opaque", "dt_vlen", "dt_array", "dt_enum", "dt_compound", "dataspace", "layout", "pipeline", "attr", "ainfo", "link", "linfo", "sb", "ohdr"}
+  Kinds = {"dt_basic", "dt_opaque", "dt_vlen", "dt_array", "dt_enum", "dt_compound", "dt_compound_n", "dataspace", "layout", "pipeline", "attr", "ainfo", "link", "linfo", "sb", "ohdr"}
   Wide = FALSE
 SPECIFICATION Spec
 INVARIANTS Consistent Emit
